@@ -678,6 +678,9 @@ func configs(prop, tier string) []*Config {
 			}
 		}
 		ps = append(ps, p{[]string{shapes[8]}, false, 1, 2, 1, 2}, p{[]string{shapes[2], shapes[1]}, true, 1, 1, 1, 2}, p{[]string{shapes[7]}, false, 2, 1, 1, 1})
+		// workers 0 and -1: "use the default" (two workers); termination must not
+		// depend on the configured number being the number of goroutines started
+		ps = append(ps, p{[]string{shapes[2]}, false, 1, 0, 1, 1}, p{[]string{shapes[3]}, false, 2, -1, 1, 1})
 		if !quick {
 			ps = append(ps, p{[]string{shapes[8]}, false, 2, 2, 1, 1}, p{[]string{shapes[8], shapes[2]}, true, 2, 2, 2, 2}, p{[]string{shapes[9]}, false, 1, 2, 1, 1})
 		}
@@ -771,6 +774,8 @@ func configs(prop, tier string) []*Config {
 		}
 	}
 	add(Config{Path: "reader", Sources: []string{shapes[8]}, Matcher: "dissect", Extract: exFull, Batch: 1, Workers: 2, Readers: 1, Buffer: 2})
+	add(Config{Path: "reader", Sources: []string{shapes[8]}, Matcher: "re", Extract: exFull, Batch: 1, Workers: 0, Readers: 1, Buffer: 1})
+	add(Config{Path: "files", Sources: []string{shapes[2], shapes[3]}, Matcher: "re", Extract: exFull, Batch: 2, Workers: -1, Readers: 2, Buffer: 1})
 	for _, l := range logics[1:] {
 		for _, s := range []int{4, 7, 9} {
 			add(Config{Path: "reader", Sources: []string{shapes[s]}, Matcher: l.matcher, Extract: l.extract, Ignore: l.ignore, Batch: 2, Workers: 2, Readers: 1, Buffer: 1})
@@ -891,7 +896,7 @@ func main() {
 		Properties: []string{"C01", "C02", "C05", "C06"},
 		Level:      "model_checking",
 		Rule: func(prop, tier string) string {
-			return "real batcher + extractor workers + consumer (C01/C02) or helpers.RunAggregationLoop with a monitored counter aggregator and status-line readers (C05), compiled onto the controlled runtime; for every configuration of the grid (input shapes over {a,b,CR,LF} incl. CRLF, empty lines, no trailing newline, a line longer than the 4-byte read buffer; batch 1-3, workers 1-2, readers 1-2, batch-buffer 1-2; regex/dissect/always matcher; extract/ignore expressions) every schedule with at most 2 (quick) / 3 (thorough) deviations from the default scheduler (delay bounding: run until blocked, then the next goroutine in cyclic order) (preemptions at channel/mutex/atomic/waitgroup/go operations, 1-byte short reads, 250ms clock jumps at clock readings, firing of the 100ms render timer while work is runnable) is executed; blocking switches and select choices are free. States = distinct (configuration, emission order, render positions) outcomes; transitions = scheduling steps. Non-trivial = at least one goroutine switch."
+			return "real batcher + extractor workers + consumer (C01/C02) or helpers.RunAggregationLoop with a monitored counter aggregator and status-line readers (C05), compiled onto the controlled runtime; for every configuration of the grid (input shapes over {a,b,CR,LF} incl. CRLF, empty lines, no trailing newline, a line longer than the 4-byte read buffer; batch 1-3, workers 1-2 and 0/-1 (= the default of two), readers 1-2, batch-buffer 1-2; regex/dissect/always matcher; extract/ignore expressions) every schedule with at most 2 (quick) / 3 (thorough) deviations from the default scheduler (delay bounding: run until blocked, then the next goroutine in cyclic order) (preemptions at channel/mutex/atomic/waitgroup/go operations, 1-byte short reads, 250ms clock jumps at clock readings, firing of the 100ms render timer while work is runnable) is executed; blocking switches and select choices are free. States = distinct (configuration, emission order, render positions) outcomes; transitions = scheduling steps. Non-trivial = at least one goroutine switch."
 		},
 		Assumptions: func(string) []string {
 			return []string{"ReadAheadBufferSize is overridden to 4 (scale only)", "sequentially consistent memory; unsynchronised accesses are reported by the vector-clock detector on struct fields and package variables of the instrumented packages, not on captured locals", "blocked senders on a full channel may be released in any order"}
